@@ -240,3 +240,24 @@ pub fn exercise(map: &Beatmap, t: &mut Tape, realistic: bool, labels: &mut Vec<S
         }
     }
 }
+
+/// Entry point for the coverage-guided fuzz target: the settings tape is derived
+/// deterministically from the input bytes, so one input is one reproducible case.
+pub fn fuzz_one(data: &[u8]) {
+    let Ok(map) = Beatmap::from_bytes(data) else { return };
+    if domain_gate(&map).is_err() {
+        return;
+    }
+    let mut h = crate::engine::fnv(data);
+    let tape: Vec<u32> = (0..2000)
+        .map(|_| {
+            h ^= h << 13;
+            h ^= h >> 7;
+            h ^= h << 17;
+            (h >> 16) as u32
+        })
+        .collect();
+    let mut t = Tape::new(tape);
+    let mut labels = Vec::new();
+    exercise(&map, &mut t, false, &mut labels);
+}
